@@ -72,10 +72,13 @@ fn pick_s(rng: &mut Rng, pool: &[&str]) -> String {
 }
 
 fn pick_ty(rng: &mut Rng) -> String {
-    match rng.below(10) {
+    match rng.below(12) {
         0 => pick_s(rng, STRUCTS),
         1 => pick_s(rng, ALIASES),
         2 => pick_s(rng, ENUMS),
+        // type graphs that close a cycle through a reference or an array in another declaration
+        10 => format!("REF_TO {}", pick_s(rng, STRUCTS)),
+        11 => format!("ARRAY[0..1] OF {}", pick_s(rng, STRUCTS)),
         _ => pick_s(rng, ELEM),
     }
 }
@@ -178,6 +181,8 @@ struct FileModel {
     suffix: String,
     breakage: Option<(u8, u32)>,
     override_text: Option<String>,
+    /// the k-th ASCII letter of the rendered text has its case flipped (an edit that changes letter case only)
+    case_flip: Option<u32>,
 }
 
 fn floor_char_boundary(s: &str, mut i: usize) -> usize {
@@ -208,6 +213,19 @@ fn insert_at_line(text: &str, line: usize, what: &str) -> String {
 
 impl FileModel {
     fn render(&self) -> String {
+        let text = self.render_plain();
+        let Some(k) = self.case_flip else { return text };
+        let letters: Vec<usize> = text.char_indices().filter(|(_, c)| c.is_ascii_alphabetic()).map(|(i, _)| i).collect();
+        if letters.is_empty() {
+            return text;
+        }
+        let at = letters[k as usize % letters.len()];
+        let mut bytes = text.into_bytes();
+        bytes[at] ^= 0x20;
+        String::from_utf8(bytes).unwrap_or_default()
+    }
+
+    fn render_plain(&self) -> String {
         if let Some(t) = &self.override_text {
             return t.clone();
         }
@@ -260,6 +278,11 @@ fn mutate(rng: &mut Rng, m: &mut FileModel) -> &'static str {
     if m.breakage.is_some() && rng.chance(1, 2) {
         m.breakage = None;
         return "repair-syntax";
+    }
+    if rng.chance(1, 10) {
+        // letter case only: another letter, or back to the original spelling
+        m.case_flip = if m.case_flip.is_some() && rng.bool() { None } else { Some(rng.below(100_000) as u32) };
+        return "case-only";
     }
     match rng.below(16) {
         0 | 1 => {
@@ -353,6 +376,7 @@ const QUERY_KINDS: &[&str] = &[
     "expr_one",
     "source_text",
     "resolve_name",
+    "project_symbols_filtered",
 ];
 
 // ---------------------------------------------------------------------------
@@ -486,6 +510,8 @@ struct Answers {
     analyze_symbols: Arc<SymbolTable>,
     file_symbols: Arc<SymbolTable>,
     project_symbols: Arc<SymbolTable>,
+    /// file_symbols_with_project_filtered with every file of the case allowed
+    project_symbols_filtered: Arc<SymbolTable>,
     expr_ids: Vec<(u32, Option<u32>)>,
     /// (expr id, raw TypeId, type name, type definition)
     types: Vec<(u32, u32, String)>,
@@ -516,12 +542,13 @@ fn q_type(db: &Database, f: FileId, id: u32, names: &SymbolTable) -> (u32, u32, 
 }
 
 /// Ask everything about one file, each query twice. `order` rotates the order of the query kinds.
-fn sweep(db: &Database, f: FileId, text: &str, order: usize) -> Result<Answers, Violation> {
+fn sweep(db: &Database, f: FileId, text: &str, order: usize, all: &rustc_hash::FxHashSet<FileId>) -> Result<Answers, Violation> {
     let offsets = probe_offsets(text);
     let mut diags = None;
     let mut analyze = None;
     let mut file_symbols = None;
     let mut project_symbols = None;
+    let mut project_symbols_filtered = None;
     let mut expr_ids = None;
     let mut raw_types: Option<Vec<(u32, u32)>> = None;
     let mut resolve = None;
@@ -557,6 +584,11 @@ fn sweep(db: &Database, f: FileId, text: &str, order: usize) -> Result<Answers, 
                     return Err(repeat("project-symbols"));
                 }
                 project_symbols = Some(a);
+                let fa = db.file_symbols_with_project_filtered(f, all);
+                if *fa != *db.file_symbols_with_project_filtered(f, all) {
+                    return Err(repeat("project-symbols-filtered"));
+                }
+                project_symbols_filtered = Some(fa);
             }
             "expr" => {
                 let a = q_expr_ids(db, f, &offsets);
@@ -600,6 +632,7 @@ fn sweep(db: &Database, f: FileId, text: &str, order: usize) -> Result<Answers, 
         analyze_symbols: analyze.symbols.clone(),
         file_symbols: file_symbols.unwrap(),
         project_symbols: project_symbols.unwrap(),
+        project_symbols_filtered: project_symbols_filtered.unwrap(),
         expr_ids: expr_ids.unwrap(),
         types,
         text: db.source_text(f).as_ref().clone(),
@@ -694,6 +727,7 @@ fn compare(got: &Answers, exp: &Answers, ctx: &Ctx) -> Result<(), Violation> {
     cmp_tables("file-symbols", &got.file_symbols, &exp.file_symbols, ctx)?;
     cmp_tables("analyze-symbols", &got.analyze_symbols, &exp.analyze_symbols, ctx)?;
     cmp_tables("project-symbols", &got.project_symbols, &exp.project_symbols, ctx)?;
+    cmp_tables("project-symbols-filtered", &got.project_symbols_filtered, &exp.project_symbols_filtered, ctx)?;
     if got.expr_ids != exp.expr_ids {
         return Err(ctx.violation("expr-id", first_diff(&strs(&got.expr_ids), &strs(&exp.expr_ids))));
     }
@@ -707,7 +741,7 @@ fn compare(got: &Answers, exp: &Answers, ctx: &Ctx) -> Result<(), Violation> {
 }
 
 /// One history query against the lazy twin, compared with the fresh answers.
-fn lazy_query(db: &Database, f: FileId, q: &str, n: u32, text: &str, exp: &Answers, ctx: &Ctx) -> Result<(), Violation> {
+fn lazy_query(db: &Database, f: FileId, q: &str, n: u32, text: &str, exp: &Answers, ctx: &Ctx, all: &rustc_hash::FxHashSet<FileId>) -> Result<(), Violation> {
     let repeat = |what: &str| Violation::new(format!("{what}/repeat-differs"), format!("op {}: lazy twin answered {what} twice differently", ctx.opi));
     match q {
         "diagnostics" => {
@@ -743,6 +777,13 @@ fn lazy_query(db: &Database, f: FileId, q: &str, n: u32, text: &str, exp: &Answe
                 return Err(repeat("project-symbols"));
             }
             cmp_tables("project-symbols", &a, &exp.project_symbols, ctx)?;
+        }
+        "project_symbols_filtered" => {
+            let a = db.file_symbols_with_project_filtered(f, all);
+            if *a != *db.file_symbols_with_project_filtered(f, all) {
+                return Err(repeat("project-symbols-filtered"));
+            }
+            cmp_tables("project-symbols-filtered", &a, &exp.project_symbols_filtered, ctx)?;
         }
         "expr_ids" => {
             let offsets = probe_offsets(text);
@@ -859,7 +900,7 @@ impl Check for C13Check {
         let mut cfg = rng.fork("config");
         let mut wl = rng.fork("workload");
         let mut opr = rng.fork("ops");
-        let n_slots = *cfg.pick(&[1usize, 2, 2, 3, 3, 3, 4, 4, 5, 5]);
+        let n_slots = *cfg.pick(&[1usize, 2, 2, 3, 3, 3, 4, 4, 5, 5, 7, 8]);
         let mode = if cfg.chance(1, 3) { "project" } else { "db" };
         let mut id_pool: Vec<u32> = vec![0, 1, 2, 3, 4, 5, 8, 13, 100, 65_536, 4_000_000_000];
         cfg.shuffle(&mut id_pool);
@@ -1149,14 +1190,15 @@ impl Check for C13Check {
                 ));
             }
             let mut fresh_answers: Vec<Answers> = Vec::with_capacity(n_slots);
+            let all: rustc_hash::FxHashSet<FileId> = (0..n_slots).map(|s| eager.file_id(s)).collect();
             let mut log = format!("{opi}:{k}:{slot}");
             let mut state = Fnv::new();
             for s in 0..n_slots {
                 let fid = eager.file_id(s);
                 let text = live.get(&s).map(String::as_str).unwrap_or("");
                 let is_live = live.contains_key(&s);
-                let exp = guard("queries on the fresh database", || sweep(&fresh, fid, text, 0))??;
-                let got = guard("queries on the incremental database", || sweep(eager.db(), fid, text, opi))??;
+                let exp = guard("queries on the fresh database", || sweep(&fresh, fid, text, 0, &all))??;
+                let got = guard("queries on the incremental database", || sweep(eager.db(), fid, text, opi, &all))??;
                 let ctx = Ctx { opi, slot: s, fid: fid.0, live: is_live, last_mut: &last_mut, twin: "eager" };
                 compare(&got, &exp, &ctx)?;
                 let dg = answers_digest(&exp);
@@ -1196,7 +1238,7 @@ impl Check for C13Check {
                 let text = live.get(&slot).map(String::as_str).unwrap_or("");
                 let is_live = live.contains_key(&slot);
                 let ctx = Ctx { opi, slot, fid: fid.0, live: is_live, last_mut: &last_mut, twin: "lazy" };
-                guard("history query on the lazy twin", || lazy_query(lazy.db(), fid, q, n, text, &fresh_answers[slot], &ctx))??;
+                guard("history query on the lazy twin", || lazy_query(lazy.db(), fid, q, n, text, &fresh_answers[slot], &ctx, &all))??;
                 stats.inc(&format!("query.{q}"));
                 if !is_live {
                     stats.inc("probe.query_on_absent_file");
@@ -1220,10 +1262,11 @@ impl Check for C13Check {
 
         // ---- final full sweep of the lazy twin
         if let Some(fresh_answers) = &last_fresh {
+            let all_final: rustc_hash::FxHashSet<FileId> = (0..n_slots).map(|s| lazy.file_id(s)).collect();
             for s in 0..n_slots {
                 let fid = lazy.file_id(s);
                 let text = live.get(&s).map(String::as_str).unwrap_or("");
-                let got = guard("final sweep of the lazy twin", || sweep(lazy.db(), fid, text, s + 1))??;
+                let got = guard("final sweep of the lazy twin", || sweep(lazy.db(), fid, text, s + 1, &all_final))??;
                 let ctx = Ctx { opi: ops.len(), slot: s, fid: fid.0, live: live.contains_key(&s), last_mut: &last_mut, twin: "lazy (final sweep)" };
                 compare(&got, &fresh_answers[s], &ctx)?;
             }
